@@ -238,7 +238,8 @@ def _evaluate(case, ctx, b, prog, opts):
             break
         if a != c:
             kwd = jsoracle.first_error_keyword(v_conv if a else v_ref, d)
-            if version == "2019-09" and kwd == "unevaluatedProperties":
+            if version == "2019-09" and a and (kwd == "unevaluatedProperties" or "unevaluatedProperties" in jsoracle.error_keywords(v_conv, d)):
+                # (under an anyOf the best-matching sub-error names another keyword: the whole error tree is looked at)
                 # jsonschema's Draft201909 implementation of unevaluatedProperties does not see properties evaluated by
                 # additionalProperties inside allOf (same schema, same datum: 2019-09 False, 2020-12 True): oracle limitation
                 ctx.h("skipped:jsonschema_2019_unevaluatedProperties")
